@@ -88,10 +88,24 @@ def claim_plan_window_data(sig, ctx) -> bool:
     if not tr:
         return False
     at = ctx.get("at", 0)
+    prog = ctx["program"]
+    if ctx["formula"] == "C01_StrictOutcome":
+        # the outcome form of the same window: the crash fell between the claim and the plan of a stage whose builder
+        # adds before-children - they are never created, the stage ends differently from the uninterrupted run
+        for e in tr["events"]:
+            if e["e"] != "crash":
+                continue
+            s = e["s"]
+            for sd in prog["stages"]:
+                row = s["st"].get(sd["ref"])
+                kids = [k["ref"] for k in prog["stages"] if k["parent"] == sd["ref"]]
+                if row and row["status"] == "RUNNING" and row["started"] and kids and not any(k in s["st"] for k in kids) and \
+                        all(s["tk"].get(t["name"], {}).get("status") == "NOT_STARTED" for t in sd["tasks"]):
+                    return True
+        return False
     ev = tr["events"][at - 1] if 0 < at <= len(tr["events"]) else None
     if not ev or ev.get("e") != "exec":
         return False
-    prog = ctx["program"]
     stage = next((s["ref"] for s in prog["stages"] for t in s["tasks"] if t["name"] == ev["task"]), None)
     sd = next(s for s in prog["stages"] if s["ref"] == stage)
     for e in tr["events"][:at]:
